@@ -163,7 +163,60 @@ class SymDict(dict):
                     return ek
         return k
 
+    def _rope_lookup(self, rope, default):
+        """a key built as text from symbolic integers (f"{a}_{b}") looked up in a table with concrete text keys: the
+        decimal renderings are injective, so the lookup is a finite map applied to the integers themselves"""
+        import re
+        parts = rope.parts
+        ints = [q for q in parts if not isinstance(q, str)]
+        if not ints or not all(isinstance(q, SymInt) for q in ints):
+            return _MISSING
+        widths = []
+        for q in ints:
+            w = q.ub if q.ub is not None else None
+            if w is None:
+                t = z3.simplify(q.t)
+                # non-negative by construction when the top bit of the (signed) term is a constant zero
+                if t.size() >= 2 and z3.is_false(z3.simplify(z3.Extract(t.size() - 1, t.size() - 1, t) == 1)):
+                    w = t.size() - 1
+            if w is None or w > 24:
+                return _MISSING
+            widths.append(w)
+        rx = ""
+        prev_int = False
+        for q in parts:
+            if isinstance(q, str):
+                rx += re.escape(q)
+                prev_int = False
+            else:
+                if prev_int:
+                    return _MISSING       # two numbers without a separator: the rendering is not injective
+                rx += "(0|[1-9][0-9]*)"
+                prev_int = True
+        keys = list(dict.keys(self))
+        if not all(isinstance(x, str) for x in keys):
+            return _MISSING
+        mapping = {}
+        for ks in keys:
+            mt = re.fullmatch(rx, ks)
+            if mt is None:
+                continue
+            vals = [int(g) for g in mt.groups()]
+            if any(v >= (1 << w) for v, w in zip(vals, widths)):
+                continue
+            comb = 0
+            for v, w in zip(vals, widths):
+                comb = (comb << w) | v
+            mapping[comb] = dict.__getitem__(self, ks)
+        terms = [z3.Extract(w - 1, 0, q.ext(w + 1)) for q, w in zip(ints, widths)]
+        key = z3.Concat(z3.BitVecVal(0, 1), *terms)
+        sm = SymMap(SymInt(key, sum(widths)), mapping, default, self.sx_name)
+        sm.rope_parts = list(zip(ints, widths))
+        return sm
+
     def _table_lookup(self, k, default):
+        if type(k).__name__ == "SymRope":
+            return self._rope_lookup(k, default)
         keys = list(dict.keys(self))
         if isinstance(k, SymInt) and _is_sym_key(k) and len(keys) > BIG and all(
                 isinstance(x, int) and not isinstance(x, SymInt) for x in keys):
